@@ -373,7 +373,10 @@ impl<VM: VMBinding> GCTriggerPolicy<VM> for FixedHeapSizeTrigger {
 }
 
 use atomic_refcell::AtomicRefCell;
+#[cfg(not(mmtk_verif))]
 use std::time::Instant;
+#[cfg(mmtk_verif)]
+use crate::util::verif::time::Instant;
 
 /// An implementation of MemBalancer (Optimal heap limits for reducing browser memory use, <https://dl.acm.org/doi/10.1145/3563323>)
 /// We use MemBalancer to decide a heap limit between the min heap and the max heap.
